@@ -660,8 +660,10 @@ func TestVerifE4HttpSweep(t *testing.T) {
 		}
 	}
 	// `OPTIONS *` (other methods with `*` are refused by net/http itself, 400, before any handler)
-	cls["variant:star"]++
-	emit("OPTIONS", "*", "0", "t", "c", vfE4Bystander)
+	if env.realHTTP { // (a request line `OPTIONS *` cannot be built for the in-process comparison run)
+		cls["variant:star"]++
+		emit("OPTIONS", "*", "0", "t", "c", vfE4Bystander)
+	}
 	// ---- pprof rows with odd arguments: the answer is one of a SET (driver = acceptor, `obs=`); direct oracle on the
 	// text of every non-200 answer. (`profile` without a valid `seconds` would run for 30 s: not sent.)
 	pp := func(m, p, q string, bg bool) {
